@@ -10,6 +10,7 @@ import observe
 from chartgen import ALL_HEADERS, DIFFICULTIES, INSTRUMENT_SUFFIX, LogCapture, chart_text, outcome, parse, section
 from common import load_impl, rng
 from props import _notes
+from common import exc_name  # noqa: E402
 
 PREFIX = (section("Song", ["Resolution = 192", 'Name = "frame"'])
           + section("SyncTrack", ["0 = TS 4", "0 = B 120000"])
@@ -106,7 +107,7 @@ def frame_record(cid, tokens):
     text = "\n".join(PREFIX + lines) + "\n"
     kind, val, logs = parse_logged(text)
     rec = {"id": cid, "props": ["C06"], "kind": "frame", "file": tokens, "ticks": ticks,
-           "outcome": "chart" if kind == "chart" else type(val).__name__, "tr": [], "warned": []}
+           "outcome": "chart" if kind == "chart" else exc_name(val), "tr": [], "warned": []}
     if kind == "chart":
         for _, dd in val.instrument_tracks.items():
             for _, t in dd.items():
@@ -182,7 +183,7 @@ def feed_record(r, cid):
                      [["E", int(e.tick)] for e in t.track_events]
                 it.sort(key=lambda x: x[1])
                 got.append({"sec": t.difficulty.value + t.instrument.value, "items": it})
-    rec = {"id": cid, "props": ["C06"], "kind": "feed", "outcome": "chart" if kind == "chart" else type(val).__name__,
+    rec = {"id": cid, "props": ["C06"], "kind": "feed", "outcome": "chart" if kind == "chart" else exc_name(val),
            "want": want, "got": got}
     return rec, text
 
@@ -274,7 +275,7 @@ def run(ctx):
             d = next(d for d in DIFFICULTIES if h.startswith(d))
             present.append([d, h[len(d):], [10 * (k + 1), 10 * (k + 1) + 1000]])
         rec = {"id": cid, "props": ["C06"], "kind": "route", "present": present,
-               "outcome": "chart" if kind == "chart" else type(val).__name__, "obs": []}
+               "outcome": "chart" if kind == "chart" else exc_name(val), "obs": []}
         if kind == "chart":
             for inst, dd in val.instrument_tracks.items():
                 for diff, t in dd.items():
@@ -312,7 +313,7 @@ def run(ctx):
     for k, p in enumerate(perms):
         text = build(song, sync, events, tracks, list(p))
         kind, val, _ = parse_logged(text)
-        d = _obs_digest(val) if kind == "chart" else "raised:" + type(val).__name__
+        d = _obs_digest(val) if kind == "chart" else "raised:" + exc_name(val)
         recs.append({"id": f"perm-{k}", "props": ["C06"], "kind": "same", "what": "independent-of-section-order",
                      "a": base_d, "b": d})
         texts[f"perm-{k}"] = text
@@ -330,7 +331,7 @@ def run(ctx):
                     kind, val, _ = parse_logged(text.replace("\n", nl))
                 else:
                     kind, val, _ = parse_logged(text.replace("\n", nl), path_mode=(nl, bom))
-                d = _obs_digest(val) if kind == "chart" else "raised:" + type(val).__name__
+                d = _obs_digest(val) if kind == "chart" else "raised:" + exc_name(val)
                 recs.append({"id": f"nl-{k}", "props": ["C06"], "kind": "same",
                              "what": "independent-of-newline-style-and-byte-order-mark", "a": base_d, "b": d})
                 texts[f"nl-{k}"] = repr((nl, bom, entry))
@@ -353,7 +354,7 @@ def run(ctx):
                 order.insert(pos + j, tag)
             text = build(song, sync, events, tracks, order, unknown=chosen)
             kind, val, logs = parse_logged(text)
-            d = _obs_digest(val) if kind == "chart" else "raised:" + type(val).__name__
+            d = _obs_digest(val) if kind == "chart" else "raised:" + exc_name(val)
             tags = [t for t, _ in chosen]
             recs.append({"id": f"unk-{k}", "props": ["C06"], "kind": "unknown", "a": base_d, "b": d,
                          "inserted": tags, "warned": warned_tags(logs, tags)})
@@ -366,7 +367,7 @@ def run(ctx):
             from chartgen import HEADER_KEY, want_pairs
             for wname, wsel in (("all", want_pairs([HEADER_KEY[h] for h in headers])), ("tuple", tuple(want_pairs([HEADER_KEY[h] for h in headers]))), ("empty", [])):
                 kind, val, logs = parse_logged(text, want=wsel, path_mode=(("x", False) if (k + pos) % 2 else None))
-                d = _obs_digest(val) if kind == "chart" else "raised:" + type(val).__name__
+                d = _obs_digest(val) if kind == "chart" else "raised:" + exc_name(val)
                 recs.append({"id": f"unk-{k}-{wname}", "props": ["C06"], "kind": "unknown", "a": base_d if wname != "empty" else d, "b": d,
                              "inserted": tags, "warned": warned_tags(logs, tags), "selection": wname})
                 texts[f"unk-{k}-{wname}"] = text
@@ -377,7 +378,7 @@ def run(ctx):
         text = build(song, sync, events, tracks, order)
         kind, val, _ = parse_logged(text)
         recs.append({"id": f"miss-{k}", "props": ["C06"], "kind": "missing", "removed": req,
-                     "raised": "" if kind == "chart" else type(val).__name__})
+                     "raised": "" if kind == "chart" else exc_name(val)})
         texts[f"miss-{k}"] = text
         ctx.evaluations += 1
     # ... and when the file has a second fault as well (a [Song] without Resolution, an invalid Player2, a sync section
@@ -399,7 +400,7 @@ def run(ctx):
             text = build(s2, y2, events, t2, order)
             kind, val, _ = parse_logged(text)
             recs.append({"id": f"miss-{k}", "props": ["C06"], "kind": "missing", "removed": "+".join(req), "second_fault": fault,
-                         "raised": "" if kind == "chart" else type(val).__name__})
+                         "raised": "" if kind == "chart" else exc_name(val)})
             texts[f"miss-{k}"] = text
             k += 1
             ctx.evaluations += 1
@@ -414,8 +415,8 @@ def run(ctx):
         t1 = build(song, sync, events, tracks, o2, nl=r.choice(["\n", "\r\n"]))
         k0, v0, _ = parse_logged(t0)
         k1, v1, _ = parse_logged(t1, path_mode=("x", r.random() < 0.5) if r.random() < 0.5 else None)
-        a = _obs_digest(v0) if k0 == "chart" else "raised:" + type(v0).__name__
-        b = _obs_digest(v1) if k1 == "chart" else "raised:" + type(v1).__name__
+        a = _obs_digest(v0) if k0 == "chart" else "raised:" + exc_name(v0)
+        b = _obs_digest(v1) if k1 == "chart" else "raised:" + exc_name(v1)
         recs.append({"id": f"ser-{k}", "props": ["C06"], "kind": "same",
                      "what": "independent-of-section-order-and-newline-style", "a": a, "b": b})
         texts[f"ser-{k}"] = t1
@@ -454,6 +455,6 @@ def replay(ctx, obj):
         text = obj.get("text", "")
         if rec["kind"] == "missing":
             kind, val, _ = parse_logged(text)
-            rec = dict(rec, raised="" if kind == "chart" else type(val).__name__)
+            rec = dict(rec, raised="" if kind == "chart" else exc_name(val))
         for rid, p, clause in ctx.validate([rec]):
             ctx.violation(clause, {"kind": "c06", "record": rec, "text": text})
